@@ -53,6 +53,9 @@ CHECKS = {
     "C12": dict(cat="exploration", tech="bounded-exhaustive metamorphic exploration over a finite transformation menu (keys, order, renaming, signature, equivalence rewrites)", ref="DESIGN.md 4/C12",
                 text="Every transformation of the menu (key maps incl. 0-based / sparse / all permutations, all dict orders, atom permutations and fresh names, signature reversal / extension, seven equivalence-preserving rewrites of base or query, selected pairs) applied to structure representatives over two and three atoms x all operator/back-end/mode combinations; the answer vector must equal the canonical presentation's.",
                 note="Non-negative integer keys only. Compares the implementation with itself."),
+    "C13": dict(cat="model_checking", tech="stateless exploration of all operation sequences up to a depth bound on real manager objects + explicit-state BFS with canonicalised epistemic state + exhaustive schedule enumeration over a controlled multiprocessing double (real forked workers)", ref="DESIGN.md 4/C13",
+                text="All sequences of depth <=2 (thorough 3) over 20 batches (duplicate query texts, keys colliding with batch positions, negative key) x sequential / parallel, per (base, operator, back-end, mode); merged BFS over the canonical epistemic state until closure with the canonical form validated by un-merged depth-3 runs; all 4^k worker-delivery schedules for k=1..3 workers (done / late / alive-lost / alive-wrote); oracle per call: one row per query, order, own key, own text, answer as alone on a fresh manager (or flagged timed out), no process left un-joined; plus calls through the real multiprocessing module checking active_children().",
+                note="Worker completion is modelled at call granularity (visibility of a worker's writes relative to join/is_alive/terminate); OS scheduling inside a worker is not modelled."),
 }
 
 NOT_YET = "check under construction in this session (see DESIGN.md section 4 for the planned exploration)"
